@@ -297,7 +297,8 @@ func FullDepth1() *Set {
 		}
 	}
 	// binary: vector-vector
-	for _, pr := range [][2]string{{"a", "b"}, {"a", "a"}, {`a{m="0"}`, "b"}, {"b", "a"}, {`a`, `a offset 30s`}, {`a @ 45.000`, `a`}} {
+	for _, pr := range [][2]string{{"a", "b"}, {"a", "a"}, {`a{m="0"}`, "b"}, {"b", "a"}, {`a`, `a offset 30s`}, {`a @ 45.000`, `a`},
+		{`a @ end()`, `a`}, {`a`, `a @ end()`}, {`a @ start()`, `a`}, {`a`, `a @ start()`}} {
 		for _, q := range BinsOver(pr[0], pr[1], BinOps, Matchings, true) {
 			s.Add(q, 1)
 		}
